@@ -542,3 +542,311 @@ Lemma run_timeout_settles ops p c :
 Proof.
   intros Ha. rewrite run_app. apply timeout_settles; [apply run_inv | apply run_inv2; apply inv2_init | exact Ha].
 Qed.
+
+(* ------------------------------------------------------------------ applied only with every callback's approval (monitor alone) *)
+
+Definition started (o : op) (out : list obs) (w : wid) : nat :=
+  match o, out with
+  | Lookup p c cb true, [Parked] => if weqb (p, c) w then 1%nat else 0%nat
+  | _, _ => 0%nat
+  end.
+
+Definition mstep_start (m m' : mst) (o : op) (out : list obs) : Prop :=
+  (forall w, r_nstart (rget w m') = (r_nstart (rget w m) + started o out w)%nat) /\
+  (forall w, In (Applied (fst w) (snd w)) out ->
+     arrived w (m_d m') = true /\
+     (d_ncb (m_d m') <> 0%nat -> (d_ncb (m_d m') <= r_nstart (rget w m'))%nat)) /\
+  m_d m' = (if d_ok (m_d m) o then d_next (m_d m) o else m_d m).
+
+Lemma upd_start m d w0 r' cl dt o out :
+  r_nstart r' = (r_nstart (rget w0 m) + started o out w0)%nat ->
+  (forall w, w <> w0 -> started o out w = 0%nat) ->
+  forall w, r_nstart (rget w {| m_d := d; m_w := wset w0 r' (m_w m); m_call := cl; m_data := dt |}) =
+            (r_nstart (rget w m) + started o out w)%nat.
+Proof.
+  intros H0 Hoth w. destruct (wid_dec w w0) as [->|Hne].
+  - rewrite rget_upd_same. exact H0.
+  - rewrite (rget_upd_other m) by exact Hne. rewrite Hoth by exact Hne. lia.
+Qed.
+
+Lemma not_applied_in (l : list obs) w :
+  (forall o, In o l -> match o with Applied _ _ => False | _ => True end) -> ~ In (Applied (fst w) (snd w)) l.
+Proof. intros H Hin. apply H in Hin. exact Hin. Qed.
+
+Lemma applied_in_ack w w0 ack rest :
+  In (Applied (fst w) (snd w)) (ack_result ack w0 ++ Applied (fst w0) (snd w0) :: rest) ->
+  ~ In (Applied (fst w) (snd w)) rest -> w = w0.
+Proof.
+  intros Hin Hn. apply in_app_or in Hin. destruct Hin as [Hin|[Hin|Hin]].
+  - destruct ack; cbn in Hin; [destruct Hin as [Hx|[]]; discriminate | destruct Hin].
+  - inversion Hin. destruct w, w0; cbn [fst snd] in *; subst; reflexivity.
+  - contradiction.
+Qed.
+
+Lemma mon_start m o out m' : minv m -> mon m o out = (m', []) -> mstep_start m m' o out.
+Proof.
+  intros M. unfold mon, mstep_start. destruct (d_ok (m_d m) o) eqn:Hok; cbn [negb].
+  2:{ intros H. pe H. subst m'. apply skipped_only_nil in Hv. subst out.
+      split; [intros w; destruct o as [| | ? ? ? [|] | | | | |]; cbn [started]; lia|].
+      split; [intros w [Hx|[]]; discriminate | reflexivity]. }
+  destruct (mon_op m (d_next (m_d m) o) o out) as [m1 v] eqn:E. intros H. pe H. subst m1.
+  apply app_eq_nil in Hv. destruct Hv as [_ Hv]. apply app_eq_nil in Hv. destruct Hv as [_ Hv]. subst v.
+  set (d := d_next (m_d m) o) in *.
+  destruct o; cbn [mon_op] in E.
+  - (* AddCb *)
+    destruct out; pe E; [|discriminate]. subst m'. unfold with_d. cbn [m_d].
+    split; [intros w; cbn [started]; unfold rget; cbn [m_w]; lia|]. split; [intros w []| reflexivity].
+  - (* Arrive *)
+    cbn [d_ok] in Hok. apply andb_true_iff in Hok. destruct Hok as [_ Hna]. apply negb_true_iff in Hna.
+    pose proof (rget_not_arrived m (p, c) M Hna) as Hfr.
+    destruct (d_ncb d) eqn:En.
+    + destruct (olist_eqb out (ack_result ack (p, c) ++ [Applied p c])) eqn:Eo; pe E; [|discriminate]. subst m'.
+      apply olist_eqb_eq in Eo. subst out.
+      cbn [m_d]. split; [|split; [|reflexivity]].
+      * apply upd_start; [rewrite Hfr; reflexivity | intros; reflexivity].
+      * intros w Hin. change (Applied p c) with (Applied (fst (p, c)) (snd (p, c))) in Hin.
+        apply applied_in_ack in Hin; [|intros []]. subst w.
+        split; [unfold d; rewrite arrived_next_arrive, weqb_refl; reflexivity | intros Hn; congruence].
+    + destruct (olist_eqb out (presented (S n) (p, c))) eqn:Eo; pe E; [|discriminate]. subst m'.
+      apply olist_eqb_eq in Eo. subst out. unfold set_rec. cbn [m_d].
+      split; [apply upd_start; [rewrite Hfr; reflexivity | intros; reflexivity]|].
+      split; [|reflexivity]. intros w Hin. exfalso. unfold presented in Hin. apply in_map_iff in Hin.
+      destruct Hin as [x [Hx _]]. discriminate.
+  - (* Lookup *)
+    destruct out as [|o1 [|o2 l]]; try (pe E; discriminate).
+    + destruct o1; pe E; try discriminate; subst m'.
+      * (* Parked *)
+        cbn [m_d]. split; [|split; [intros w [Hx|[]]; discriminate | reflexivity]].
+        apply upd_start.
+        -- cbn [r_nstart started]. rewrite weqb_refl. destruct appr; lia.
+        -- intros w Hne. cbn [started]. rewrite (weqb_neq (p, c) w) by congruence. destruct appr; reflexivity.
+      * (* Returned *)
+        unfold with_d. cbn [m_d].
+        split; [intros w; destruct appr; cbn [started]; unfold rget; cbn [m_w]; lia|].
+        split; [intros w [Hx|[]]; discriminate | reflexivity].
+    + destruct o1; pe E; discriminate.
+  - (* Commit *)
+    destruct (vassoc (p, c, cb) (m_call m)) as [a|] eqn:Ev.
+    2:{ pe E. subst m'. apply skipped_only_nil in Hv. subst out.
+        split; [intros w; cbn [started]; lia|]. split; [intros w [Hx|[]]; discriminate | reflexivity]. }
+    pose proof (commit_kind_inv (p, c) (ack_of (p, c) d) out) as Hk.
+    assert (Haw : arrived (p, c) d = true).
+    { unfold d. apply arrived_mono. apply (mi_call _ M (p, c, cb) a). apply vassoc_In_pair. exact Ev. }
+    destruct (commit_kind (p, c) (ack_of (p, c) d) out); pe E; try discriminate; subst m'; cbn [m_d].
+    + subst out. split; [apply upd_start; [cbn [r_nstart started]; lia | intros; reflexivity]|].
+      split; [intros w [Hx|[]]; discriminate | reflexivity].
+    + (* applied: the monitor checked unanimity *)
+      apply app_eq_nil in Hv. destruct Hv as [_ Hv].
+      destruct (a && Nat.leb (d_ncb d) (r_nstart (rget (p, c) m))) eqn:Eu; [|discriminate].
+      apply andb_true_iff in Eu. destruct Eu as [_ Eu]. apply Nat.leb_le in Eu.
+      split; [apply upd_start; [cbn [r_nstart started]; lia | intros; reflexivity]|].
+      split; [|reflexivity]. intros w Hin. subst out.
+      apply applied_in_ack in Hin; [|intros [Hx|[]]; discriminate]. subst w.
+      split; [exact Haw|]. intros _. rewrite rget_upd_same. cbn [r_nstart]. exact Eu.
+    + subst out. split; [apply upd_start; [cbn [r_nstart started]; lia | intros; reflexivity]|].
+      split; [intros w [Hx|[Hx|[]]]; discriminate | reflexivity].
+  - (* Expire *)
+    destruct out as [|o1 [|o2 l]]; try (pe E; discriminate).
+    + destruct o1; pe E; try discriminate; subst m'.
+      * unfold set_rec. cbn [m_d]. split; [apply upd_start; [cbn [r_nstart started]; lia | intros; reflexivity]|].
+        split; [intros w [Hx|[]]; discriminate | reflexivity].
+      * unfold with_d. cbn [m_d]. split; [intros w; cbn [started]; unfold rget; cbn [m_w]; lia|].
+        split; [intros w [Hx|[]]; discriminate | reflexivity].
+    + destruct o1; pe E; discriminate.
+  - (* Fire *)
+    destruct (r_phase (rget (p, c) m)) eqn:Eph.
+    1,3: (pe E; subst m'; apply skipped_only_nil in Hv; subst out;
+          split; [intros w; cbn [started]; lia|]; split; [intros w [Hx|[]]; discriminate | reflexivity]).
+    destruct out as [|o1 [|o2 l]].
+    + pe E. subst m'. unfold set_rec. cbn [m_d].
+      split; [apply upd_start; [cbn [r_nstart started]; lia | intros; reflexivity]|]. split; [intros w [] | reflexivity].
+    + destruct o1; try (pe E; discriminate).
+      destruct (weqb (p0, c0) (p, c) && N.eqb e E_TIMEOUT) eqn:Ew; pe E; [|discriminate]. subst m'.
+      unfold set_rec. cbn [m_d].
+      split; [apply upd_start; [cbn [r_nstart started]; lia | intros; reflexivity]|].
+      split; [intros w [Hx|[]]; discriminate | reflexivity].
+    + destruct o1; pe E; discriminate.
+  - (* Clean *)
+    destruct out as [|o1 [|o2 l]]; try (pe E; discriminate).
+    + destruct o1; pe E; try discriminate; subst m'. unfold with_d. cbn [m_d].
+      split; [intros w; cbn [started]; unfold rget; cbn [m_w]; lia|]. split; [intros w [Hx|[]]; discriminate | reflexivity].
+    + destruct o1; pe E; discriminate.
+  - (* Probe *)
+    pe E. subst m'. split; [intros w; cbn [started]; lia|]. split; [|reflexivity].
+    intros w Hin. exfalso. clear -Hv Hin. revert Hv Hin. induction out as [|x l IH]; intros Hv Hin; [destruct Hin|].
+    destruct x; try discriminate.
+    + cbn [probe_check] in Hv. apply app_eq_nil in Hv. destruct Hv as [_ Hv]. destruct Hin as [Hx|Hin]; [discriminate | auto].
+    + cbn [probe_check] in Hv. destruct Hin as [Hx|Hin]; [discriminate | auto].
+    + destruct l; [|discriminate]. destruct Hin as [Hx|[]]. discriminate.
+    + destruct l; [|discriminate]. destruct Hin as [Hx|[]]. discriminate.
+Qed.
+
+Definition op_is_appr (w : wid) (cb : N) (o : op) : bool :=
+  match o with
+  | Lookup p c cb' true => weqb (p, c) w && N.eqb cb' cb
+  | _ => false
+  end.
+
+Definition has_appr (w : wid) (ops : list op) (cb : nat) : bool := existsb (op_is_appr w (N.of_nat cb)) ops.
+
+(* callbacks (below the registered number) that delivered an approval for w, by the bookkeeping and the operations so far *)
+Definition cnt (w : wid) (d : disc) (ops : list op) : nat :=
+  length (filter (fun cb => vmem (w, N.of_nat cb) (d_verd d) && has_appr w ops cb) (seq 0 (d_ncb d))).
+
+Lemma filter_length_mono {A} (f g : A -> bool) l :
+  (forall x, In x l -> f x = true -> g x = true) -> (length (filter f l) <= length (filter g l))%nat.
+Proof.
+  induction l as [|x l IH]; intros H; [cbn; lia|]. cbn [filter].
+  assert (IH' := IH (fun y Hy => H y (or_intror Hy))).
+  destruct (f x) eqn:Ef.
+  - rewrite (H x (or_introl eq_refl) Ef). cbn [length]. lia.
+  - destruct (g x); cbn [length]; lia.
+Qed.
+
+Lemma filter_length_strict {A} (f g : A -> bool) l x :
+  NoDup l -> In x l -> f x = false -> g x = true ->
+  (forall y, In y l -> f y = true -> g y = true) -> (length (filter f l) + 1 <= length (filter g l))%nat.
+Proof.
+  induction l as [|y l IH]; intros Hnd Hin Hf Hg H; [destruct Hin|].
+  inversion Hnd as [|? ? Hny Hnd']; subst. cbn [filter]. destruct Hin as [->|Hin].
+  - rewrite Hf, Hg. cbn [length].
+    pose proof (filter_length_mono f g l (fun z Hz => H z (or_intror Hz))). lia.
+  - assert (IH' := IH Hnd' Hin Hf Hg (fun z Hz => H z (or_intror Hz))).
+    destruct (f y) eqn:Ef.
+    + rewrite (H y (or_introl eq_refl) Ef). cbn [length]. lia.
+    + destruct (g y); cbn [length]; lia.
+Qed.
+
+Lemma filter_length_all {A} (f : A -> bool) l :
+  (length l <= length (filter f l))%nat -> forall x, In x l -> f x = true.
+Proof.
+  induction l as [|y l IH]; intros H x Hin; [destruct Hin|]. cbn [filter length] in H.
+  pose proof (filter_length_mono f (fun _ => true) l (fun _ _ _ => eq_refl)) as Hle.
+  assert (Hall : length (filter (fun _ : A => true) l) = length l).
+  { clear. induction l; cbn; [reflexivity | rewrite IHl; reflexivity]. }
+  destruct (f y) eqn:Ef.
+  - cbn [length] in H. destruct Hin as [->|Hin]; [exact Ef | apply IH; [lia | exact Hin]].
+  - exfalso. lia.
+Qed.
+
+Lemma has_appr_app w ops o cb : has_appr w (ops ++ [o]) cb = has_appr w ops cb || op_is_appr w (N.of_nat cb) o.
+Proof. unfold has_appr. rewrite existsb_app. cbn. rewrite orb_false_r. reflexivity. Qed.
+
+Record pinv (m : mst) (pre : list op) (seen : list obs) : Prop := {
+  p_cnt : forall w, (r_nstart (rget w m) <= cnt w (m_d m) pre)%nat;
+  p_app : forall w, In (Applied (fst w) (snd w)) seen ->
+            arrived w (m_d m) = true /\ (d_ncb (m_d m) <> 0%nat -> (d_ncb (m_d m) <= r_nstart (rget w m))%nat)
+}.
+
+Lemma pinv_step m pre seen o out m' :
+  minv m -> pinv m pre seen -> mon m o out = (m', []) -> pinv m' (pre ++ [o]) (seen ++ out).
+Proof.
+  intros M [P1 P2] E. destruct (mon_start m o out m' M E) as (Hs & Ha & Hd).
+  destruct (d_ok (m_d m) o) eqn:Hok.
+  2:{ (* skipped: nothing changes *)
+      assert (Hout : out = [Skipped]).
+      { unfold mon in E. rewrite Hok in E. cbn [negb] in E. pe E. apply skipped_only_nil in Hv. exact Hv. }
+      subst out. constructor.
+      - intros w. rewrite Hs, Hd. assert (H0 : started o [Skipped] w = 0%nat) by (destruct o as [| | ? ? ? [|] | | | | |]; reflexivity).
+        rewrite H0, Nat.add_0_r. specialize (P1 w). unfold cnt in *.
+        eapply Nat.le_trans; [exact P1|]. apply filter_length_mono. intros cb _ H.
+        apply andb_true_iff in H. destruct H as [H1 H2]. rewrite H1, has_appr_app, H2. reflexivity.
+      - intros w Hin. apply in_app_or in Hin. destruct Hin as [Hin|[Hx|[]]]; [|discriminate].
+        rewrite Hd, Hs. destruct (P2 w Hin) as [Q1 Q2]. split; [exact Q1|]. intros Hn. specialize (Q2 Hn). lia. }
+  (* a valid operation *)
+  assert (Hmono_arr : forall w, arrived w (m_d m) = true -> arrived w (m_d m') = true)
+    by (intros w H; rewrite Hd; apply arrived_mono; exact H).
+  destruct (match o with AddCb => true | _ => false end) eqn:Eadd.
+  - (* a callback is registered: no write has arrived yet *)
+    destruct o; try discriminate. cbn [d_ok] in Hok.
+    assert (Hnil : d_arr (m_d m) = []) by (destruct (d_arr (m_d m)); [reflexivity | discriminate]).
+    assert (Hfr : forall w, rget w m = rfresh) by (intros w; apply rget_not_arrived; [exact M | apply arrived_none_nil; exact Hnil]).
+    constructor.
+    + intros w. rewrite Hs, Hfr. cbn [started rfresh r_nstart]. lia.
+    + intros w Hin. apply in_app_or in Hin. destruct Hin as [Hin|Hin].
+      * destruct (P2 w Hin) as [Q1 _]. rewrite (arrived_none_nil _ _ Hnil) in Q1. discriminate.
+      * apply (Ha w Hin).
+  - (* every other operation keeps the number of callbacks *)
+    assert (Hn : d_ncb (m_d m') = d_ncb (m_d m)) by (rewrite Hd; destruct o; try reflexivity; discriminate).
+    assert (Hverd : forall v, vmem v (d_verd (m_d m)) = true -> vmem v (d_verd (m_d m')) = true)
+      by (intros v H; rewrite Hd; apply vmem_mono; exact H).
+    constructor.
+    + intros w. rewrite Hs. specialize (P1 w). unfold cnt in *. rewrite Hn.
+      destruct (started o out w) eqn:Est.
+      * rewrite Nat.add_0_r. eapply Nat.le_trans; [exact P1|]. apply filter_length_mono. intros cb _ H.
+        apply andb_true_iff in H. destruct H as [H1 H2]. rewrite (Hverd _ H1), has_appr_app, H2. reflexivity.
+      * (* an approval of w was taken up: one more callback counts *)
+        destruct o as [| | p c cb [|] | | | | |]; try discriminate.
+        cbn [started] in Est. destruct out as [|o1 [|]]; try discriminate. destruct o1; try discriminate.
+        destruct (weqb (p, c) w) eqn:Ew; [|discriminate]. apply weqb_eq in Ew. subst w. inversion Est; subst n.
+        cbn [d_ok] in Hok. apply andb_true_iff in Hok. destruct Hok as [Hok Hnv]. apply andb_true_iff in Hok.
+        destruct Hok as [_ Hcb]. apply negb_true_iff in Hnv. apply Nat.ltb_lt in Hcb.
+        eapply Nat.le_trans; [apply Nat.add_le_mono_r; exact P1|].
+        apply (filter_length_strict _ _ _ (N.to_nat cb)).
+        -- apply seq_NoDup.
+        -- apply in_seq. lia.
+        -- cbn beta. rewrite N2Nat.id. apply andb_false_iff. left. exact Hnv.
+        -- cbn beta. rewrite N2Nat.id. apply andb_true_iff. split.
+           ++ rewrite Hd. cbn [d_next d_verd]. apply vmem_In. left. reflexivity.
+           ++ rewrite has_appr_app. cbn [op_is_appr]. rewrite N2Nat.id, weqb_refl, N.eqb_refl. apply orb_true_r.
+        -- intros k _ H. apply andb_true_iff in H. destruct H as [H1 H2]. rewrite (Hverd _ H1), has_appr_app, H2. reflexivity.
+    + intros w Hin. apply in_app_or in Hin. destruct Hin as [Hin|Hin]; [|apply (Ha w Hin)].
+      destruct (P2 w Hin) as [Q1 Q2]. split; [apply Hmono_arr; exact Q1|]. rewrite Hn, Hs. intros Hne. specialize (Q2 Hne). lia.
+Qed.
+
+Lemma accepted_pinv tr : forall m pre seen, minv m -> pinv m pre seen ->
+  strictly_accepted (judge m sinit tr) = true ->
+  pinv (mrun m tr) (pre ++ map fst tr) (seen ++ flat_map snd tr).
+Proof.
+  induction tr as [|[o out] tr IH]; intros m pre seen M P H.
+  - cbn. rewrite !app_nil_r. exact P.
+  - rewrite judge_cons in H. cbn [strictly_accepted forallb fst] in H. apply andb_true_iff in H. destruct H as [Hv H].
+    destruct (mon m o out) as [m1 v] eqn:E. cbn [fst snd] in *. destruct v; [|discriminate].
+    destruct (mon_outcome m o out m1 M E) as (M1 & _ & _).
+    pose proof (pinv_step m pre seen o out m1 M P E) as P1.
+    specialize (IH m1 _ _ M1 P1 H).
+    cbn [mrun map flat_map fst snd]. rewrite E. cbn [fst].
+    replace (pre ++ o :: map fst tr) with ((pre ++ [o]) ++ map fst tr) by (rewrite <- app_assoc; reflexivity).
+    replace (seen ++ out ++ flat_map snd tr) with ((seen ++ out) ++ flat_map snd tr) by (rewrite <- app_assoc; reflexivity).
+    exact IH.
+Qed.
+
+Lemma pinv_init : pinv minit [] [].
+Proof. constructor; [intros w; cbn; lia | intros w []]. Qed.
+
+(* any accepted trace: a write is applied only if every registered callback delivered an approval *)
+Lemma accepted_applied_unanimous tr :
+  strictly_accepted (judge minit sinit tr) = true ->
+  forall p c, In (Applied p c) (flat_map snd tr) ->
+  let n := d_ncb (m_d (mrun minit tr)) in
+  n <> 0%nat -> forall cb, (cb < n)%nat -> In (Lookup p c (N.of_nat cb) true) (map fst tr).
+Proof.
+  intros H p c Hin n Hn cb Hcb.
+  destruct (accepted_pinv tr minit [] [] minv_init pinv_init H) as [P1 P2]. cbn [app] in *.
+  destruct (P2 (p, c) Hin) as [_ Q]. specialize (Q Hn). specialize (P1 (p, c)). fold n in Q.
+  unfold cnt in P1. fold n in P1.
+  assert (Hall : (length (seq 0 n) <= length (filter (fun cb0 => vmem (p, c, N.of_nat cb0) (d_verd (m_d (mrun minit tr))) &&
+                                                      has_appr (p, c) (map fst tr) cb0) (seq 0 n)))%nat)
+    by (rewrite seq_length; lia).
+  pose proof (filter_length_all _ _ Hall cb) as Hf.
+  assert (Hcbin : In cb (seq 0 n)) by (apply in_seq; lia).
+  specialize (Hf Hcbin). apply andb_true_iff in Hf. destruct Hf as [_ Hf].
+  unfold has_appr in Hf. apply existsb_exists in Hf. destruct Hf as [o [Ho Hop]].
+  destruct o as [| | p' c' cb' [|] | | | | |]; try discriminate. cbn [op_is_appr] in Hop.
+  apply andb_true_iff in Hop. destruct Hop as [Hw Hc]. apply weqb_eq in Hw. apply N.eqb_eq in Hc. inversion Hw; subst. exact Ho.
+Qed.
+
+Lemma run_ops_trace ops : forall s, map fst (snd (run s ops)) = ops.
+Proof.
+  induction ops as [|o r IH]; intros s; [reflexivity|]. rewrite run_cons. cbn [snd map fst]. rewrite IH. reflexivity.
+Qed.
+
+Lemma run_applied_unanimous ops p c :
+  d_ncb (dz (fst (run init ops))) <> 0%nat ->
+  In (Applied p c) (flat_map snd (snd (run init ops))) ->
+  forall cb, (cb < d_ncb (dz (fst (run init ops))))%nat -> In (Lookup p c (N.of_nat cb) true) ops.
+Proof.
+  intros Hn Hin cb Hcb.
+  pose proof (accepted_applied_unanimous _ (run_strictly_accepted ops) p c Hin) as H.
+  cbn zeta in H. rewrite (r_d _ _ (run_rel ops)), run_ops_trace in H. apply H; assumption.
+Qed.
